@@ -14,6 +14,7 @@ from __future__ import annotations
 import ast
 import concurrent.futures
 import io
+import itertools
 import json
 import re
 from typing import Any, Optional
@@ -541,6 +542,113 @@ def gen_inputs(ctx):
 
 
 # ---------------------------------------------------------------------------------------------
+# large documents (beyond any internal batch size of the builder / block size of the store)
+def n_store_tokens(text: str) -> Optional[int]:
+    e = env()
+    try:
+        m = e['parser'].parse(text, e['models'].File, auto_claim_comments=False)
+    except Exception:
+        return None
+    return len(m.token_store)
+
+
+def large_ledger(rng, target: int, style: str, exact: bool) -> Optional[str]:
+    """Many small directives (mostly transactions with meta/comments); each item is kept only if it parses on its
+    own. With exact=True the store token count is made exactly `target` by dropping items / padding blank lines."""
+    items, est = [], 1
+    guard = 0
+    while est < target and guard < 20 * target:
+        guard += 1
+        g = Gen(rng)
+        g.nlstyle = style
+        k = rng.random()
+        if k < .7:
+            lines = g.entry_lines('transaction')
+        elif k < .85:
+            lines = g.entry_lines(g.c(g.KINDS))
+        elif k < .93:
+            lines = g.block_comment('')
+        else:
+            lines = ['']
+        t = ''.join(ln + g.nl() for ln in lines)
+        n = n_store_tokens(t)
+        if n is None:
+            continue
+        items.append(t)
+        est += n - 1
+    nl = '\r\n' if style == 'crlf' else '\n'
+    text = ''.join(items)
+    if not exact:
+        return text if n_store_tokens(text) is not None else None
+    for _ in range(8):
+        n = n_store_tokens(text)
+        if n is None:
+            return None
+        if n == target:
+            return text
+        if n > target:
+            while items and n > target:
+                n -= (n_store_tokens(items.pop()) or 1) - 1
+            text = ''.join(items)
+        else:
+            text += nl * (target - n)
+    return None
+
+
+def huge_transaction(rng, n_postings: int, style: str) -> Optional[str]:
+    g = Gen(rng)
+    g.nlstyle = style
+    head = '2000-01-01 * "huge" ; one directive' + g.nl()
+    body = []
+    guard = 0
+    while len(body) < n_postings and guard < 20 * n_postings:
+        guard += 1
+        lines = [g.posting('  ')]
+        if g.p(.2):
+            lines += g.meta_lines('    ')
+        if g.p(.1):
+            lines += g.block_comment('  ')
+        t = ''.join(ln + g.nl() for ln in lines)
+        if n_store_tokens(head + t) is not None:
+            body.append(t)
+    text = head + ''.join(body)
+    return text if n_store_tokens(text) is not None else None
+
+
+def large_inputs(ctx):
+    """Yields (rule, text, origin); origin 'large' = monitors only, 'large+coq' = also the builder correspondence."""
+    from harness import store_driver as sd
+    sd.LF_PINNED = True
+    sd.set_load_factor(1000)
+    try:
+        out = []
+        if ctx.quick:
+            out.append(('many', 6500, 'lf', False, 'large'))
+            out.append(('many', 6500, 'crlf', False, 'large'))
+            out.append(('huge', 1500, 'lf', False, 'large'))
+            out.append(('many', 4200, 'mixed', False, 'large+coq'))
+        else:
+            for p2 in (1000, 2048, 4096, 8192, 16384):
+                for d in (-1, 0, 1):
+                    out.append(('many', p2 + d, ctx.rng.choice(['lf', 'crlf']), True, 'large'))
+            out.append(('huge', 1500, 'crlf', False, 'large'))
+            out.append(('huge', 4000, 'lf', False, 'large'))
+            out.append(('many', 4200, 'mixed', False, 'large+coq'))
+            out.append(('many', 8300, 'lf', False, 'large+coq'))
+        for kind, n, style, exact, origin in out:
+            text = large_ledger(ctx.rng, n, style, exact) if kind == 'many' else huge_transaction(ctx.rng, n, style)
+            if text is None:
+                ctx.count('large_not_generated')
+                ctx.notes.append(f'large document ({kind}, {n}, {style}) could not be generated')
+                continue
+            got = n_store_tokens(text)
+            ctx.dist(f'large_store_tokens={got}')
+            yield 'file', text, origin
+    finally:
+        sd.LF_PINNED = False
+
+
+# ---------------------------------------------------------------------------------------------
 def tie(ctx):
     """Pin the parts of parser.py that PostLex.v / Builder.v transcribe; fail closed."""
     e = env()
@@ -617,21 +725,26 @@ def tie(ctx):
 
 # ---------------------------------------------------------------------------------------------
 def shrink_text(pred, text: str, budget: int = 40) -> str:
-    """Greedy line-wise delta debugging: drop lines while pred(text) stays true."""
+    """Delta debugging on lines: drop contiguous chunks (halves, quarters, ... single lines) while pred stays true."""
     lines = text.splitlines(keepends=True)
     n = 0
-    i = 0
-    while i < len(lines) and n < budget:
-        cand = lines[:i] + lines[i + 1:]
-        n += 1
-        try:
-            ok = pred(''.join(cand))
-        except Exception:
-            ok = False
-        if ok:
-            lines = cand
-        else:
-            i += 1
+    size = max(1, len(lines) // 2)
+    while n < budget and lines:
+        i, progressed = 0, False
+        while i < len(lines) and n < budget:
+            cand = lines[:i] + lines[i + size:]
+            n += 1
+            try:
+                ok = pred(''.join(cand))
+            except Exception:
+                ok = False
+            if ok:
+                lines, progressed = cand, True
+            else:
+                i += size
+        if size == 1 and not progressed:
+            break
+        size = max(1, size // 2)
     return ''.join(lines)
 
 
@@ -656,6 +769,7 @@ CODE_WHAT = {1: 'H-tile fails: the lexeme values entering PostLex do not concate
 def run_cases(ctx, inputs, record=True):
     cases, metas = [], []
     for rule, text, origin in inputs:
+        large = origin.startswith('large')
         for acc in (False, True):
             o = observe(text, rule, acc)
             if o is None:
@@ -666,7 +780,9 @@ def run_cases(ctx, inputs, record=True):
             for sig, what in fails:
                 w = {'text': text, 'target': rule, 'auto_claim_comments': acc}
                 if sig != SIG_D12:
-                    small = shrink_text(lambda t: any(s == sig for s, _ in (monitor(observe(t, rule, acc))[0])), text)
+                    budget = 30 if large else 40
+                    small = shrink_text(lambda t: any(s == sig for s, _ in (monitor(observe(t, rule, acc))[0])), text,
+                                        budget=budget)
                     w = {'text': small, 'target': rule, 'auto_claim_comments': acc}
                 ctx.monitor_failure(sig, what, w)
             if record:
@@ -686,6 +802,9 @@ def run_cases(ctx, inputs, record=True):
                     if v:
                         ctx.dist('feature=' + k)
                 ctx.count('submodels_checked', len(spans))
+            if large and (origin != 'large+coq' or acc):
+                ctx.count('large_monitor_only')
+                continue
             if o.instr_error:
                 ctx.fail('tie', 'instrumentation', 'PostLex/ModelBuilder can no longer be observed the way Builder.v '
                          'assumes (attributes _tokens/_token_to_index/_built_tokens, process())',
@@ -741,7 +860,9 @@ def run(ctx: common.Ctx):
                 'with cost/price, inline comments, block comments at every indentation and position, blank and '
                 'whitespace-only lines, LF/CRLF/CR-CR-LF/mixed line ends, missing final newline, non-ASCII) as '
                 'models.File, plus snippets for each of the other 35 parse targets with and without accepted text '
-                'outside the model, each with auto_claim_comments False and True; texts parse() rejects are counted '
+                'outside the model, plus large documents (quick: 2 ledgers of ~6500 store tokens LF/CRLF, one transaction '
+                'with 1500 postings, one ~4200-token ledger also through the builder correspondence; thorough: exact '
+                'store sizes 1000/2048/4096/8192/16384 +-1), each with auto_claim_comments False and True; texts parse() rejects are counted '
                 'and skipped; a case is non-trivial when the post-lexed stream has > 3 lexemes; distinct by '
                 '(target, mode, text)')
     ctx.assumptions += [
@@ -755,12 +876,12 @@ def run(ctx: common.Ctx):
     ]
     ctx.require_coq(['properties/C01'], extra_targets=['ParseRun'])
     tie(ctx)
-    n, bad = run_cases(ctx, gen_inputs(ctx))
+    n, bad = run_cases(ctx, itertools.chain(large_inputs(ctx), gen_inputs(ctx)))
     ctx.notes.append(f'{n} accepted (text, target, mode) cases; {ctx.counters.get("rejected_by_parse", 0)} rejected by parse()')
 
 
 def search(ctx: common.Ctx):
-    run_cases(ctx, gen_inputs(ctx))
+    run_cases(ctx, itertools.chain(large_inputs(ctx), gen_inputs(ctx)))
 
 
 def replay(ctx: common.Ctx, path: str) -> int:
